@@ -1,0 +1,26 @@
+//go:build verif
+
+package ps
+
+import (
+	math "github.com/IBM/mathlib"
+)
+
+// Thin exported aliases of unexported functions, for the verification harness under /verif.
+// Compiled only with -tags verif.
+
+func VerifLagrangeCoefficient(evaluatedAt int64, evaluationPoints ...int64) *math.Zr {
+	return lagrangeCoefficient(evaluatedAt, evaluationPoints...)
+}
+
+func VerifChooseKoutOfN(n, k int, f func([]int64)) { chooseKoutOfN(n, k, f) }
+
+func VerifReconstruct(s Shares, evaluationPoints ...int64) *math.Zr {
+	return s.reconstruct(evaluationPoints...)
+}
+
+func VerifLocalAggregateECPoints(points []*math.G2, evaluationPoints ...int64) *math.G2 {
+	return localAggregateECPoints(points, evaluationPoints...)
+}
+
+func VerifCurve() *math.Curve { return c }
